@@ -574,6 +574,7 @@ func ParseURI(uri SIPStr, puri *PsipURI) (ErrorURI, int) {
 					// reset everything else, we have to restart at host
 					foundUser = true
 					errHeaders = false
+					portNo = 0
 					state = uHost0
 					s = i + 1
 					puri.Host.Reset()
@@ -635,6 +636,7 @@ func ParseURI(uri SIPStr, puri *PsipURI) (ErrorURI, int) {
 					// reset everything else, we have to restart at host
 					foundUser = true
 					errHeaders = false
+					portNo = 0
 					state = uHost0
 					s = i + 1
 					puri.Host.Reset()
